@@ -9,7 +9,7 @@
 From Coq Require Import Lia.
 From ChitchatModel Require Import Base SMap Ids Bytes Params NodeState Stream DeltaWire Message Cluster
   FD Chitchat World SMap_lemmas Builder_lemmas Wire_lemmas Codec_lemmas Emit_lemmas Inv Compute_lemmas
-  NodeInv Truth NodeTruth Weak Reach ReachEmit.
+  NodeInv Truth NodeTruth Weak Reach ReachEmit Written.
 
 Section C08.
   Variable zc : bytes -> option bytes.
@@ -43,6 +43,21 @@ Section C08.
     intros strict g Hr m b Hm Hb He.
     destruct (C08_decode_encode m b [] (sent_struct zc zc_len strict g Hr m Hm) Hb He) as (_ & H2 & H3). auto.
   Qed.
+
+  (* Delta::serialize of a delta computed by the MTU-bounded serializer writes exactly the bytes
+     that serializer measured — for every budget, although the two use different block
+     thresholds: no assert fires, and the recorded length is the payload length *)
+  Theorem C08_computed_deltas_serialize : forall cs dg mtu sched ord x,
+    cluster_inv cs -> P_MIN_MTU <= mtu -> mtu <= u16_max ->
+    compute_delta zc cs dg mtu sched ord = Ok x ->
+    exists p, put_delta zc x = Ok p /\ len p = dlen x.
+  Proof. exact (computed_delta_serializes zc zc_len). Qed.
+
+  (* every reply a well-formed node computes encodes without abort, to as many bytes as announced *)
+  Theorem C08_replies_encode : forall now n m ord n' r evs,
+    node_inv n -> msg_wf m -> process_message zc now n m ord = Ok (n', Some r, evs) ->
+    exists b, encode zc r = Ok b /\ len b = serialized_len r.
+  Proof. exact (reply_encodes zc zc_len). Qed.
 
   (* the pieces, each usable on its own *)
   Theorem C08_primitives :
@@ -129,6 +144,8 @@ Proof. vm_compute. split; reflexivity. Qed.
 Print Assumptions C08_announced_length.
 Print Assumptions C08_decode_encode.
 Print Assumptions C08_emitted_messages_round_trip.
+Print Assumptions C08_computed_deltas_serialize.
+Print Assumptions C08_replies_encode.
 Print Assumptions C08_primitives.
 Print Assumptions C08_stream_round_trip.
 Print Assumptions C08_delta_round_trip.
